@@ -305,3 +305,11 @@ def bbc_replay(inputs, clause):
 
 
 binning_contigs.replay = bbc_replay
+
+
+def extra_units():
+    """the tiling reaches the workers through bp_chunked (utils/binning.py): every bin lands in exactly one chunk, and a chunk
+    keeps its bins once it is handed out (C08's units, re-verified under this property)"""
+    from contracts import c08
+    from pyvc.units import share
+    return [share(c08.bp_chunked, PROP)] + [share(u, PROP) for u in c08.UNITS if getattr(u, 'name', '').startswith('bp_chunked[chunks after')]
